@@ -147,7 +147,9 @@ fn gen_script(rng: &mut Rng, inputs_hint: &[String], world: &[(String, JV)]) -> 
             0 => (CE::Lit(gen_jv(rng, 1)), false),
             1 => (CE::Lit(JV::Num(rng.range(0, 40) as f64)), true),
             2 | 3 => {
-                let k = any_key(rng);
+                // sometimes an input reference whose name is a *binding* of the script (and,
+                // usually, not an input): `#name` is `inputs.name`, never the binding
+                let k = if !bound.is_empty() && rng.chance(1, 5) { rng.pick(bound).0.clone() } else { any_key(rng) };
                 if crate::hast::is_ident(&k) {
                     if rng.chance(1, 2) { (CE::InDot(k), false) } else { (CE::InRef(k), false) }
                 } else if !k.contains('"') {
@@ -542,7 +544,7 @@ pub fn judge(sc: &Scenario, rr: &RunResult) -> Judged {
                 return j;
             }
             if let Err((c, d)) = check_success(outputs) {
-                let c = if !visible.is_empty() && c == "wrong-object" && d.contains("top-level keys") { "output-dropped".to_string() } else { c };
+                let c = if c == "wrong-object" && d.contains("top-level keys") && visible.iter().any(|v| !d.split("expected").next().unwrap_or("").contains(&format!("{:?}", v))) { "output-dropped".to_string() } else { c };
                 j.viol = fail(&c, d);
             }
         }
@@ -574,7 +576,14 @@ pub fn judge(sc: &Scenario, rr: &RunResult) -> Judged {
                     return j;
                 }
                 if let Err((c, d)) = check_success(outputs) {
-                    let c = if c == "wrong-object" && d.contains("top-level keys") && outputs.iter().any(|(_, v)| matches!(v, JV::Str(s) if s == "\u{0}visible")) { "output-dropped".to_string() } else { c };
+                    let c = if c == "wrong-object"
+                        && d.contains("top-level keys")
+                        && outputs.iter().any(|(k, v)| matches!(v, JV::Str(s) if s == "\u{0}visible") && !d.split("expected").next().unwrap_or("").contains(&format!("{:?}", k)))
+                    {
+                        "output-dropped".to_string()
+                    } else {
+                        c
+                    };
                     j.viol = fail(&c, format!("under hard fault {:?}: {}", j.hard_kinds, d));
                 }
             }
